@@ -30,7 +30,7 @@ fn spec() -> Spec {
             Kind { name: "shared_history", quick: 30_000, thorough: 800_000, serial: false },
             Kind { name: "with_shape", quick: 6_000, thorough: 200_000, serial: false },
         ],
-        rule: "value: non-degenerate robot x stack of depth 1..3 in any order from Tool/Base/Frame (uniform rotations and translations; axial tools/frames for the 5-DOF clauses) x q: forward == base*chain*tool in plain matrices, link poses (tool unchanged, base pre-multiplied, frame last), every answer of every inverse entry point lands on the request through the reference composition, continuation ordering and verbatim J6 hold at the outermost level. delegation: the same stacks over a SpyKinematics: for each of the 8 trait methods exactly one inner call of the same method, pose argument == analytically transformed request, scalar/previous arguments bit-identical, results passed through. shared_history: 2-3 stacks of the same wrapper types but other transforms over ONE shared inner robot object, asked the bit-identical joint vector and requested pose in the order A,B,(C,)A,.. on one thread, each judged by its own reference composition. with_shape: KinematicsWithShape is a base + tool stack with a collision filter on top: the same value clauses (forward, links, every answer maps back, continuation ordering at the outermost level) on synthetic cells whose obstacles sit on IK branches of the request. axes: LinearAxis / Gantry forward == base*translation*inner forward. non-trivial = stack has a rotation != identity; distinct = hash(robot, stack, q, method)",
+        rule: "value: non-degenerate robot x stack of depth 1..3 in any order from Tool/Base/Frame (uniform rotations and translations; axial tools/frames for the 5-DOF clauses) x q: forward == base*chain*tool in plain matrices, link poses (tool unchanged, base pre-multiplied, frame last), every answer of every inverse entry point lands on the request through the reference composition, continuation ordering and verbatim J6 hold at the outermost level. delegation: the same stacks over a SpyKinematics: for each of the 8 trait methods exactly one inner call of the same method, pose argument == analytically transformed request, scalar/previous arguments bit-identical, results passed through. shared_history: 2-3 stacks of the same wrapper types but other transforms over ONE shared inner robot object, asked the bit-identical joint vector and requested pose in the order A,B,(C,)A,.. on one thread, each judged by its own reference composition. with_shape: KinematicsWithShape is a base + tool stack with a collision filter on top: the same value clauses (forward, links, every answer maps back, continuation ordering at the outermost level) on synthetic cells whose obstacles sit on IK branches of the request. axes: LinearAxis / Gantry forward == base*translation*inner forward. non-trivial = stack has a rotation != identity; distinct = hash(robot, stack, q, method) Workload additions: exactly-identity / rotation-only / translation-only wrappers and tiny rotations; joints resting at exact zeros; kind shared_history = stacks of the same types but other transforms over ONE shared inner robot; kind with_shape = the value clauses through KinematicsWithShape with obstacles on IK branches of the request.",
         assumptions: vec![
             "5-DOF variants are only judged on stacks whose tools/frames are axial (translation along and rotation about the flange z axis), as the statement presupposes",
             "forward/link tolerance 1e-11*(1+reach); inverse accuracy 1e-6 m / 1e-6 rad + 1e-9",
@@ -122,7 +122,34 @@ fn shared_history(idx: u64, rng: &mut Rng, mon: &mut Mon) {
 fn with_shape(idx: u64, rng: &mut Rng, mon: &mut Mon) {
     use crate::cell::Cell;
     let mut cell = Cell::generate(rng, idx, true, true, false);
-    let free = cell.build();
+    // base / tool transforms incl. rotation-only (a robot yawed or turned over in place at the cell origin, a tool
+    // that only re-orients the TCP), translation-only and identity
+    for which in 0..2 {
+        let f = if which == 0 { cell.base_tf } else { cell.tool_tf };
+        let g = match rng.usize(8) {
+            0 => Fr { r: if which == 0 { random_rotation(rng) } else { f.r }, p: [0.0; 3] },
+            1 => Fr { r: random_rotation(rng), p: [0.0; 3] },
+            2 => Fr { r: I3, p: f.p },
+            3 => Fr::id(),
+            _ => f,
+        };
+        if which == 0 { cell.base_tf = g } else { cell.tool_tf = g }
+    }
+    // the robot is built by the library's own constructor (not assembled by the monitor)
+    let build_lib = |cell: &Cell| -> rs_opw_kinematics::kinematics_with_shape::KinematicsWithShape {
+        rs_opw_kinematics::kinematics_with_shape::KinematicsWithShape::with_safety(
+            to_params(&cell.robot.rp),
+            cell.constraints,
+            std::array::from_fn(|i| cell.links[i].to_trimesh()),
+            cell.base.as_ref().unwrap().to_trimesh(),
+            fr_to_iso(&cell.base_tf),
+            cell.tool.as_ref().unwrap().to_trimesh(),
+            fr_to_iso(&cell.tool_tf),
+            cell.env.iter().map(|(m, f)| rs_opw_kinematics::collisions::CollisionBody { mesh: m.to_trimesh(), pose: fr_to_iso(f).cast::<f32>() }).collect(),
+            cell.safety.build(),
+        )
+    };
+    let free = build_lib(&cell);
     let mut q = None;
     for _ in 0..20 {
         let t = crate::props::c10::gen_posture(rng);
@@ -156,7 +183,7 @@ fn with_shape(idx: u64, rng: &mut Rng, mon: &mut Mon) {
             cell.add_designed_obstacle(rng, &b, target, gap);
         }
     }
-    let robot = cell.build();
+    let robot = build_lib(&cell);
     let after = Kinematics::inverse_continuing(&robot, &fr_to_iso(&request), &prev);
     if after.len() >= 2 && after.len() < branches.len() {
         mon.count("with_shape.filtered_lists");
